@@ -136,9 +136,13 @@ def subMapJ (m : SubMap) : Json := listJ (pairJ Json.str strsJ) m
 
 /-- op "extrasubs": `_pre_compile_designspace`'s extraSubstitutions -/
 def extrasubs (req : Json) : R Reply := do
-  let rules ← asList asRule (← field (← field req "in") "rules")
+  let i ← field req "in"
+  let rules ← asList asRule (← field i "rules")
+  let path : Path := match i.getObjVal? "path" with
+    | .ok (Json.str "variable") => .variable
+    | _ => .masters
   let obs ← asSubMap (← field req "obs")
-  return { model := subMapJ (extraSubs rules), holds := holdsExtra rules obs }
+  return { model := subMapJ (writersExtra path rules), holds := holdsExtra rules obs }
 
 /-- op "classify": the extra_substitutions step of `util.classifyGlyphs` -/
 def classify (req : Json) : R Reply := do
